@@ -94,6 +94,12 @@ CHECKS = {
    text="Valid printed values and real/synthetic TZif files are mutated (truncation, digit overflow, sign/separator swaps, long runs, invalid UTF-8; header counts, extreme/unsorted transitions, offsets, designation indexes, hostile footers) and fed to every parser; no panic, Ok values in range and re-printable, accepted zones answer a battery of lookups, peak heap while parsing TZif bounded by a multiple of the input (counting allocator), coarse time-scaling test.",
    note="A process abort (stack overflow, memory error) is reported through a crash guard that names the running case. 'Work proportional to input' is decided by heap accounting plus a coarse timing test, not a complexity proof. The concatenated-tzdata reader is exercised through C18.",
    design="DESIGN.md section 3 C17"),
+ "C19": dict(
+   technique="stateful (model-based) proptest over histories of lookups, resets, on-disk file changes and TTL changes against a private zoneinfo tree whose file versions identify themselves; plus multi-threaded stress with a version-window oracle and a no-progress watchdog",
+   category="exploration",
+   text="Histories of 1..30 operations are checked step by step against a model of disk, names index and per-entry cache; allowed results follow the statement (exactly the current version once the TTL has passed or after reset, cached-or-current inside the TTL, never another zone's data, canonical spelling, available() == index view). Stress rounds run 2/4/16 threads against one database while files are replaced atomically.",
+   note="Uses the cfg(jiff_verif) hook TimeZoneDatabase::__verif_set_ttl. Thread interleavings are sampled, not enumerated (std RwLock cannot be intercepted without non-additive changes). An entirely empty tree (documented: names are kept when the walk fails) is not generated.",
+   design="DESIGN.md section 3 C19"),
  "C20": dict(
    technique="model-based testing of generated handle programs (reference model = payload per handle + allocation model via a counting global allocator), exhaustive enumeration of all fixed offsets, and the same interpreter as a libFuzzer target under AddressSanitizer/LeakSanitizer (thorough)",
    category="exploration",
